@@ -532,9 +532,15 @@ class Evaluator:
         self.store_var(s[3], v)
 
     def s_itxn(self, s):
+        # Execute(fields) = Seq(Begin, SetFields, Submit): field expressions run while the inner transaction is open,
+        # and the AVM refuses a second itxn_begin before itxn_submit
+        if getattr(self, "itxn_open", False):
+            raise Panic("itxn_begin without itxn_submit")
+        self.itxn_open = True
         d = {}
         for f, e in s[1]:
             d[f] = self.ev(e)
+        self.itxn_open = False
         self.itxn_count += 1
         if self.itxn_count > 16:
             raise ResourceLimit("itxn")
